@@ -3,6 +3,7 @@ The operation alphabet of the book-level line protocol, the model's `step`
 and the complete observation both sides print after every operation.
 -/
 import Bourse.Model.Book
+import Bourse.Model.Snapshot
 
 namespace Bourse
 
@@ -16,7 +17,7 @@ inductive Op where
   | time (t : Nat)
   | trading (on : Bool)
   | resetVol
-  /-- snapshot round trip; the identity on the model (`load (save s) = s`) -/
+  /-- snapshot round trip: `load (save s)` -/
   | reload
   deriving DecidableEq, Repr, Inhabited
 
@@ -44,7 +45,7 @@ def step (b : Book) : Op → Book × Res
   | .trading true => (b.enableTrading, .unit)
   | .trading false => (b.disableTrading, .unit)
   | .resetVol => (b.resetTradeVol, .unit)
-  | .reload => (b, .unit)
+  | .reload => (if b.faulted then b else b.reload, .unit)
 
 def run (b : Book) (ops : List Op) : Book := ops.foldl (fun b op => (b.step op).1) b
 
